@@ -200,6 +200,11 @@ impl IpRateLimiter {
         const SEED1: u64 = 0x1234_5678_9ABC_DEF0;
         const SEED2: u64 = 0x2345_6789_ABCD_EF01;
 
+        /* A v4 client is seen as a v4-mapped v6 address on a dual stack socket.  It is the same
+         * source whichever of our sockets it talks to, so bill the same buckets.
+         */
+        let ip = ip.to_canonical();
+
         let hash1 = Self::hash_ip(SEED1, ip);
         let hash2 = Self::hash_ip(SEED2, ip);
 
